@@ -157,6 +157,26 @@ def run(ctx):
                 ctx.say("DISAGREE parser scope=%s decl=%r\n impl =%s\n model=%s" % (k, d, i[:400], m[:400]))
     ctx.sample({"scope": cases[0][0], "decl": cases[0][1], "model": mres[0][:200]})
 
+    # ---------------- 1b. implementation-level oracle: text after a complete statement is never accepted
+    ctx.rules.append("trailing-text oracle: for every accepted generated declaration d, the texts d+'; zzz', d+' )', d+';;', d+'; )' and "
+                     "d+' ]' must be rejected by declast.check_decl")
+    acc = [(k, d) for (k, d, kind) in cases if kind == "generated" and not d.rstrip().endswith((";", ",", "="))][: (3000 if quick else 30000)]
+    nacc = 0
+    for k, d in acc:
+        if not guarded(lambda: "OK|" if declast.check_decl(d, namespace=ctxs[k]) else "OK|").startswith("OK"):
+            continue
+        nacc += 1
+        for tail in ("; zzz", " )", ";;", "; )", " ]"):
+            r = guarded(lambda: "OK|" if declast.check_decl(d + tail, namespace=ctxs[k]) is not None else "OK|")
+            ctx.count(1, ("tail", k, d, tail))
+            if r.startswith("OK"):
+                ctx.violation("failing-input", {"what": "text after a complete declaration is silently accepted",
+                                                "input": {"scope": k, "decl": d + tail, "accepted_prefix": d}})
+            elif not r.startswith("REJECT"):
+                ctx.violation("failing-input", {"what": "declast.check_decl ends in an internal failure instead of a diagnostic",
+                                                "input": {"scope": k, "decl": d + tail, "outcome": r}})
+    ctx.hist("trailing-oracle:accepted-bases", nacc)
+
     # ---------------- 2. attribute validation: classification correspondence
     FORMS = c17gen.FORMS + ["+%s(size(a,b))", "+%s(len(zz))", "+%s(f(size(a))+1)", "+%s(0)", "+%s(-1)", "+%s(1_0)", "+%s=0.0", "+%s(library)",
                             "+%s(inout)", "+%s(n m)", "+%s(out)", "+%s(scalar)", "+%s(pat1)", "+%s(20)"]
@@ -221,8 +241,14 @@ def run(ctx):
         if m == "REJECT|" + enc("UNMODELLED"):
             ctx.hist("validation:unmodelled-real-rank")
             continue
+        rule = ""
         if m.startswith("REJECT|"):
+            rule = vlib.dec(m[7:])
             m = "REJECT|"
+        if i.startswith("OK") and m == "REJECT|" and rule not in ("Parse Error",):
+            # the model (for which acceptance => every documented rule holds is a theorem) rejects by a documented rule
+            ctx.violation("failing-input", {"what": "attribute validation accepts what the documented rule rejects: " + rule,
+                                            "input": {"kind": k, "decl": d, "rule": rule}})
         if i.split(": ")[0].split("|")[0] != m.split("|")[0]:
             nb += 1
             ctx.broken.append(("correspondence", "Attrs.parse_and_verify", "kind=%s decl=%r impl=%s model=%s" % (k, d, i[:300], m[:300])))
@@ -238,6 +264,9 @@ def run(ctx):
             ctx.count(1, (tag, label))
             ctx.hist("main:%s:%s" % (tag, r["cls"]))
             judge(ctx, label, text, r, fails)
+            if label.startswith("combo:") and r["cls"] == "OK":
+                ctx.violation("failing-input", {"what": "a documented illegal declaration / attribute combination is accepted without a diagnostic",
+                                                "input": {"case": label, "yaml": text, "outcome": r}})
         ctx.traces += len(space)
     # documented grammar is never rejected: every description of the regression corpus is accepted
     import corpus
